@@ -182,6 +182,11 @@ class Report:
                     "distinct_nontrivial counts distinct (obligation, configuration) pairs whose verdict needed a solver call "
                     "(syntactically closed ones are flagged trivial and not counted)",
             "samples": self.samples or [{"note": "no obligations ran"}],
+            # bounded-symbolic reading of the model_checking keys: a "state" is one symbolic state explored (a configuration's fully symbolic
+            # input state, or one feasible path condition of engine A); a "transition" is one solver query (or term-identity decision)
+            # discharged over such a state
+            "states": max(1, self.paths + len({json.dumps(o.get("cfg"), sort_keys=True, default=str) for o in self.obs})),
+            "transitions": max(1, n_q),
             "explanation": self.technique,
             "functions_encoded": self.functions,
             "bounds": self.bounds,
